@@ -563,8 +563,8 @@ void ep2_mul_sim_dig(ep2_t r, const ep2_t p[], const dig_t k[], size_t len) {
 
 	ep2_null(t);
 
-	max = util_bits_dig(k[0]);
-	for (int i = 1; i < len; i++) {
+	max = 0;
+	for (int i = 0; i < len; i++) {
 		max = RLC_MAX(max, util_bits_dig(k[i]));
 	}
 
